@@ -16,7 +16,7 @@ RULE = ("convolve: every (nx, nw) pair of the box (quick 1..120 + all pairs padd
         "distinct = distinct (nx,nw,mode) or (function,length,axis)")
 ASSUMPTIONS = ["numpy.convolve / numpy.fft are the textbook definitions", "float64 tolerance 1e-9 relative to the operands' magnitudes"]
 REQUIRED = {"contract:convolve_post": 1000, "fexpand_checked": 100, "fscale_checked": 100, "nsoptim_checked": 1000,
-            "lphp_checked": 50, "dft_checked": 50, "cosine_checked": 20}
+            "lphp_checked": 50, "integer_sample_arrays": 20, "dft_checked": 50, "cosine_checked": 20}
 CASE_TIMEOUT = 300.0
 
 _VIOL = []
@@ -244,6 +244,12 @@ def run_case(case):
                 a = nd - 1 if ax is None else ax % nd
                 shp[a] = n
                 x = rng.standard_normal(shp)
+                ikey = ""
+                if rng.random() < 0.3:
+                    # arbitrary contents include raw integer samples (int16 / int32 counts as stored on disk): the laws are about the VALUES
+                    x = rng.integers(-3000, 3000, shp).astype(rng.choice([np.int16, np.int32]))
+                    ikey = ":integer-samples"
+                    res.count("integer_sample_arrays")
                 si = float(rng.choice([1.0, 0.002, 1 / 30000]))
                 fny = 0.5 / si
                 b = np.sort(rng.uniform(0, fny, 2))
@@ -261,7 +267,9 @@ def run_case(case):
                         hi2 = lo2.copy()
                     b4 = np.r_[lo2, hi2]
                 key = "filters:3d-non-last-axis" if (nd == 3 and a == 0) else ("filters:negative-axis" if (ax or 0) < 0 else "filters")
+                key += ikey
                 try:
+                    x0 = x.copy()
                     lo = F.lp(x, si, b, axis=ax)
                     hi = F.hp(x, si, b, axis=ax)
                     res.check(lo.shape == x.shape and M.relerr(lo + hi, x) <= 1e-9, key + ":lp+hp",
@@ -277,6 +285,7 @@ def run_case(case):
                     shape[a] = n
                     ref = np.real(np.fft.ifft(np.fft.fft(x, axis=a) * resp.reshape(shape), axis=a))
                     res.check(M.relerr(hi, ref) <= 1e-9, key + ":hp-definition", f"hp != cosine-tapered response n={n} nd={nd} axis={ax}")
+                    res.check(x.dtype == x0.dtype and np.array_equal(x, x0), key + ":input-modified", f"lp/hp/bp modified their input n={n} nd={nd} axis={ax} dtype={x0.dtype}")
                 except Exception as e:
                     res.exception(key + ":exception", e, f"n={n} nd={nd} axis={ax}")
                 nt += 1
